@@ -46,7 +46,7 @@ CLAIMED.update({
             EXPL + "Hamilton-algebra identities are executed exactly on big integers (Schwartz-Zippel identity test), in floats for magnitudes 1e-6..1e6, for powers |n|<=6, the 3-vector form, rate functions, exp/log, and dual quaternions (associativity, 8x8 matrix, conjugate, norm).",
             "Python integer arithmetic; reference product table in pbt/refs.py; the symbolic pass is supplementary", "4/C12"),
     "C08": ("exhaustive enumeration of (operator x left kind x right kind x length pair) cells against an oracle table transcribed from the operator documentation + Hypothesis-drawn operand values",
-            EXPL + "all ordered pairs of the 16 public classes plus scalars and arrays under * / + - ** @ == != ^ | and single/multi-valued operands (about 6000 cells) are executed; undocumented mixed-class pairs must raise, documented pairs must return the documented class, length and (for the pairs named in the statement) the reference value; never None, an identity or foreign elements.",
+            EXPL + "all ordered pairs of the 16 public classes plus scalars and arrays under * / + - ** @ == != ^ | and single/multi-valued operands (about 7000 cells) are executed; undocumented mixed-class pairs must raise, documented pairs must return the documented class, length and (for the pairs named in the statement) the reference value; never None, an identity or foreign elements.",
             "the table DOC in pbt/props/c08_types.py (DESIGN.md appendix A); ndarray-left cells excluded", "4/C08"),
     "C09": ("exhaustive (class x operator x m x n) cells for m,n in 1..5 + Hypothesis-drawn distinct element values; metamorphic oracle: multi-valued result element i = single-valued operation on the i-th elements",
             EXPL + "every vectorised operator and per-value accessor/unary method of the eight list-capable classes is compared element by element with the same operation on single-valued operands; mismatching lengths must raise ValueError.",
@@ -54,7 +54,7 @@ CLAIMED.update({
     "C11": ("Hypothesis-generated pose pairs with relative rotation 1e-12..pi-1e-6 and s values concentrated at the ends; geometric oracle (fixed axis, angle proportional to s, linear translation) from reference axis-angle",
             EXPL + "trinterp, trinterp2, slerp, pose.interp and UnitQuaternion.interp are judged on endpoints, validity, linear translation, constant-rate rotation about the fixed axis along the arc taken, range errors, vector s and mutual agreement.",
             "reference axis_angle / Rodrigues in pbt/refs.py; antipodal pairs on the long arc excluded as the statement says (matrix routes: classified with the library's own r2q)", "4/C11"),
-    "C01": ("Hypothesis-generated (entry point, arguments) cases over a table of 53 constructor entry points + expression trees over library-built objects; validity-predicate oracle",
+    "C01": ("Hypothesis-generated (entry point, arguments) cases over a table of constructor entry points (54 at the time of writing) + expression trees over library-built objects; validity-predicate oracle",
             EXPL + "every public constructor of rotations, rigid motions and unit quaternions (base functions and classes) is called with angles biased to the special values (incl. many turns and 1e-12 neighbourhoods), axis lengths 1e-3..1e6, translations to 1e6, both units, every order, scalar and vector forms, and every element of every result (and of every node of random expression trees with *, /, inv, **, prod, interp, norm) is checked for orthonormality, determinant, last row and unit norm to 1e-9.",
             "validity predicates in pbt/refs.py (NumPy); random constructors are seeded from the case", "4/C01"),
     "C04": ("Hypothesis-generated motions near the quaternion-extraction branch points; round-trip, homomorphism and cross-class constructor agreement oracles evaluated through reference q2r / exp",
@@ -63,14 +63,14 @@ CLAIMED.update({
     "C19": ("Hypothesis-generated lines, planes, rigid motions and line pairs in general / parallel / intersecting / coincident position; elementary-geometry oracle from the defining data",
             EXPL + "lines built by PQ, PointDir and Planes are judged on incidence, Pluecker constraint, principal point, projection, point(lambda), rigid transformation, equality, parallelism, common perpendicular, distance, plane intersection with its parameter, and plane membership, with residuals <= 1e-9 x data magnitude.",
             "reference point-line geometry in the check; predicates with a tol argument receive a data-scaled tolerance; the ^ predicate is outside the statement", "4/C19"),
-    "C15": ("exhaustive enumeration over a spec table of 127 callables x container forms x int/float x lengths 0..8 x unit / order names + Hypothesis-drawn values; oracle: identity with the 1-D array form, must-raise for wrong lengths / unknown options, deg = rad*pi/180",
+    "C15": ("exhaustive enumeration over a spec table of about 130 callables x container forms x numeric scalar types x int/float x lengths 0..8 x unit / order names + Hypothesis-drawn values; oracle: identity with the 1-D array form, must-raise for wrong lengths / unknown options, deg = rad*pi/180",
             EXPL + "every exported base function and class constructor/method with a vector, angle, unit or order argument (table checked for completeness against spatialmath.base.__all__ at start-up) is called in all five container forms (three for classes), with every wrong length 0..8, both units, all order names, aliases and misspellings, and scalar-vs-packed call forms.",
             "the spec table and its exclusion list (pbt/props/c15_forms.py, counted in evidence); outputs compared by value and shape", "4/C15"),
     "C16": ("enumeration of every API entry marked 'SymPy: supported' (by reflection) x symbolic/numeric argument masks x substitution points + Hypothesis-drawn points; differential oracle: symbolic output evaluated at the point vs the numeric call",
             EXPL + "the entry table is checked at start-up against the docstring markers; each entry is called with all-symbolic and mixed arguments and every output entry is evaluated with SymPy at random and special points and compared with the numeric call to 1e-12; structural 0/1 entries must stay exact; pose operators on symbolic values are included.",
             "SymPy evalf; one recorded finding (F-C16-1, SE3.Delta symbolic vs normalised numeric) is excluded by site", "4/C16"),
     "C17": ("model-free stateful generation: operation histories over a pool of values into which every result is fed back, with byte-level snapshots of every pool member before/after each call; exhaustive single operations and ordered pairs; C15 table and reflected zero-argument members",
-            EXPL + "352 operations (base functions, constructors, operators incl. augmented ones, accessors, conversions, documented list mutators) are run singly, in every ordered pair and in random histories with results flowing into later calls; any change of an argument, operand or bystander other than the receiver of a list mutator, and any difference between two calls on equal inputs, is a violation.",
+            EXPL + "about 400 operations (base functions, constructors, operators incl. augmented ones, accessors, conversions, string conversion / printing, documented list mutators) are run singly, in every ordered pair and in random histories with results flowing into later calls; any change of an argument, operand or bystander other than the receiver of a list mutator, and any difference between two calls on equal inputs, is a violation.",
             "byte-level snapshot (tobytes/shape/dtype) of arrays, containers and object data; views are allowed; plot/animate/printline excluded", "4/C17"),
 })
 
